@@ -266,6 +266,22 @@ def simplify_op(o: dict):
             nf = dict(f)
             nf["lost"] = 0
             yield var(fault=nf)
+    # layout rewrites / damage specs: fewer specs, fewer kinds per spec
+    if isinstance(o.get("specs"), list):
+        if len(o["specs"]) > 1:
+            for sp in o["specs"]:
+                yield var(specs=[sp])
+        for i, sp in enumerate(o["specs"]):
+            if isinstance(sp.get("kinds"), list) and len(sp["kinds"]) > 1:
+                for kk in sp["kinds"]:
+                    nsp = dict(sp)
+                    nsp["kinds"] = [x for x in sp["kinds"] if x != kk]
+                    yield var(specs=o["specs"][:i] + [nsp] + o["specs"][i + 1:])
+    if isinstance(o.get("spec"), dict) and isinstance(o["spec"].get("kinds"), list) and len(o["spec"]["kinds"]) > 1:
+        for kk in o["spec"]["kinds"]:
+            nsp = dict(o["spec"])
+            nsp["kinds"] = [x for x in o["spec"]["kinds"] if x != kk]
+            yield var(spec=nsp)
     for k in ("explicit", "defaults", "x", "y"):
         if k in o:
             yield {kk: vv for kk, vv in o.items() if kk != k}
